@@ -29,6 +29,7 @@ ASSUMPTIONS = ["BlockValue.size_exponent <= 7 for block values in the handler st
 
 def check(env, rep, tier):
     include(rep, env, tier, "c10", ("C10.5",), "C08.9", "'every body length': the reply is measured without its payload before it is fragmented (a whole-message size check would refuse large bodies)")
+    include(rep, env, tier, "c13", ("C13.1",), "C08.10", "'block numbers agree with byte offsets': the Block2 value put on a served block reaches the wire (and the client's request value is read) with NUM, M and SZX at their RFC 7959 bit positions")
     include(rep, env, tier, "c20", ("C20.2",), "C08.8", "'later blocks are served from the cache': the per-key entry is only reached through entry()/or_insert() - it is never removed, replaced or iterated by the handler")
     configs = ["default"] if tier == "quick" else ["default", "udp"]
     rep.configs = configs
@@ -231,6 +232,22 @@ def check(env, rep, tier):
             I, cres = run(prog, clone, args=cargs, st=st, I=I, gargs=gargs)
             from_src = bool(src_opts) and isinstance(cargs[1], RefV) and all(k == cargs[1].place.key for k in src_opts)
             ok = not bad and n_items[0] > 0 and n_sets[0] > 0 and from_src
+            # ... and none is taken away again: the handler's own code removes no option from a reply
+            # (replacing the Block2 option goes through set_option / set_options_as, which insert)
+            removers = []
+            for x in prog.bodies.values():
+                if x.get("promoted") or not x["path"].startswith("block_handler::") or "::tests" in x["id"]:
+                    continue
+                for bb in x["blocks"]:
+                    t = bb["term"]
+                    if t["k"] == "call" and not bb.get("cleanup"):
+                        pth = (t.get("resolved") or t.get("callee") or {}).get("path", "") or ""
+                        if pth in ("packet::Packet::clear_option", "packet::Packet::clear_all_options") \
+                                or (pth.startswith("alloc::collections::btree::map::BTreeMap::<K, V, A>::") and pth.rsplit("::", 1)[-1] in ("remove", "clear", "retain", "pop_first", "pop_last", "split_off", "remove_entry")):
+                            removers.append((x["path"], pth.rsplit("::", 1)[-1], bb["tspan"]["l"]))
+            rep.ob("C08.4", "no-option-removed", not removers,
+                   "the block handler removes options from a message (%s): a served block can lack an option the application's reply carried" % removers[:3],
+                   {"file": clone["span"]["f"], "line": clone["span"]["l"], "fn": clone["path"]})
             rep.ob("C08.4", "option-echo", ok,
                    "the cached reply's options are not all copied into each served block: some option entry of the cached reply can be passed over "
                    "without set_option(number, values.clone()) on the live reply (items iterated: %d, copies: %d, skipping paths: %d)" % (n_items[0], n_sets[0], len(bad)),
